@@ -463,24 +463,23 @@ static void boxes_case(uint64_t idx, void *vctx)
     free(init); dimg_free(&lib); dimg_free(&ora);
 }
 
-/* colour sweeps: case = (block of 256 sweep values, sweep kind, op in {SRC, OVER, OVER_REVERSE, ADD}, dest format) */
-typedef struct { int cfg; int nvals; const uint16_t *vals; pixman_indexed_t pal[5]; } sweep_ctx;
-static const int SWEEP_OPS[4] = { 0x01, 0x03, 0x04, 0x0c };
+/* colour sweeps: case = (block of 256 sweep values, sweep kind, operator, dest format) */
+typedef struct { int cfg; int nvals; const uint16_t *vals; int nops; int ops[4]; int nfmt; int fmt[NDEST]; pixman_indexed_t pal[5]; } sweep_ctx;
 /* sweep kinds: 0,1: alpha swept with rgb = (alpha, alpha/2, 0) / (0x1234, 0xffff, 0x8080); 2..10: r,g,b swept with alpha in {0, 0x8000, 0xffff} */
 #define NSWEEPKINDS 11
 static void sweep_case(uint64_t idx, void *vctx)
 {
     const sweep_ctx *c = vctx;
     int nblocks = c->nvals / 256;
-    int dims[4] = { nblocks, NSWEEPKINDS, 4, NDEST }, dg[4]; vf_decode(idx, dims, 4, dg);
-    int block = dg[0], kind = dg[1], op = SWEEP_OPS[dg[2]], di = dg[3];
+    int dims[4] = { nblocks, NSWEEPKINDS, c->nops, c->nfmt }, dg[4]; vf_decode(idx, dims, 4, dg);
+    int block = dg[0], kind = dg[1], op = c->ops[dg[2]], di = c->fmt[dg[3]];
     pixman_format_code_t code; const char *fname; int bpp, is_float; uint32_t dmask;
     dest_info(di, &code, &fname, &bpp, &dmask, &is_float);
     const pixman_indexed_t *pal = (di >= 38 && di <= 42) ? &c->pal[di - 38] : NULL;
     dimg lib, ora;
     dimg_make(&lib, code, bpp, pal, &CLIPS[0]); dimg_make(&ora, code, bpp, pal, &CLIPS[0]);
     uint8_t *init = malloc(lib.size); fill_initial(init, lib.size, lib.stride, bpp, is_float);
-    boxes_ctx bc; bc.cfg = c->cfg;      /* only cfg is read by boxes_once */
+    static boxes_ctx bc; bc.cfg = c->cfg;      /* only cfg is read by boxes_once */
     uint64_t acc = 0, o = 0; int nchanged = 0;
     for (int k = 0; k < 256 && !vf_failed(); k++) {
         uint16_t v = c->vals[block * 256 + k]; pixman_color_t col;
@@ -498,6 +497,9 @@ static void sweep_case(uint64_t idx, void *vctx)
         vf_count_eval(256); vf_count_nontrivial((uint64_t)nchanged);
         ST_ADD(boxes_changed, nchanged); ST_ADD(boxes_unchanged, 256 - nchanged);
         vf_outcome(acc);
+        if (block == nblocks / 2 && kind == 0 && op == 0x03 && di == 11 && vf_want_sample())
+            vf_sample("fill_boxes/rectangles OVER on r5g6b5, alpha %#06x..%#06x with rgb=(alpha, alpha/2, 0), chain=%s: 256 colours, all equal per-box compositing",
+                      c->vals[block * 256], c->vals[block * 256 + 255], c10_cfg_names[c->cfg]);
     }
     free(init); dimg_free(&lib); dimg_free(&ora);
 }
@@ -515,11 +517,13 @@ int main(int argc, char **argv)
               "returned TRUE with a non-empty rectangle (fill/blt), requests whose oracle result differs from the initial picture (fill_boxes); outcomes = distinct result buffers.";
     vf_bounds = th ? "fill: bpp {1,8,16,32} x x 0..40 x widths 0..300 bytes x h {1,2} x 3 strides x 4 phases x 2 rows x 2 fillers, bpp {4,24} x 0..8 x w 0..40; all 256/65536 fillers (8/16 bpp), 4096 (32 bpp); "
                      "blt: 16/32 bpp src x 0..8 x dst x 0..8 x widths 0..300 bytes x h x strides x phases, other depth pairs small; fill_boxes/rectangles: 53 operators x 45 destination formats x "
-                     "12 box sets (4 exceed the bounds) x 5 clips x 2 APIs x 39 colours; colour sweeps: all 65536 values of alpha (2 rgb settings) and of each colour channel (alpha 0/0x8000/0xffff) x "
-                     "{SRC, OVER, OVER_REVERSE, ADD} x 45 formats; all under 5 implementation chains"
+                     "12 box sets (4 exceed the bounds) x 5 clips x 2 APIs x 39 colours; colour sweeps: 1024 values of alpha (2 rgb settings) and of each colour channel (alpha 0/0x8000/0xffff) x "
+                     "{SRC, OVER, OVER_REVERSE, ADD} x 45 formats; all under 5 implementation chains; default chain in addition all 65536 values per swept channel x {SRC, OVER} x 16 formats "
+                     "(the 12 formats of the direct-fill shortcut and 4 controls)"
                    : "fill: bpp {1,8,16,32} x x 0..20 (0..40 for 1 bpp) x widths 0..140 bytes x h {1,2} x 3 strides x 4 phases x 2 rows x 2 fillers, bpp {4,24} small; all 256/65536 fillers (8/16 bpp), 4096 (32 bpp); "
-                     "blt: 16/32 bpp src x 0..4 x dst x 0..5 x widths 0..140 bytes; fill_boxes/rectangles: 53 operators x 45 destination formats x 12 box sets x 5 clips x 2 APIs x 13 colours (default and "
-                     "general chains; 8 in-bounds+4 out-of-bounds box sets x 2 clips x 4 colours for the other three chains); colour sweeps: 1024 values per channel; 5 implementation chains for fill/blt";
+                     "blt: 16/32 bpp src x 0..4 x dst x 0..5 x widths 0..140 bytes; fill_boxes/rectangles: 53 operators x 45 destination formats x 12 box sets (4 exceed the bounds) x 5 clips x 2 APIs x 13 colours (default and "
+                     "general chains; 4 colours for the other three chains); colour sweeps (default and general chains): 1024 values of alpha and of each colour channel x {SRC, OVER, OVER_REVERSE, ADD} x 45 formats; "
+                     "5 implementation chains";
     vf_assume("byte-level little-endian pixel addressing of c10_codec.h is the meaning of 'the addressed rectangle'");
     vf_assume("the fill_boxes oracle is pixman's own compositing of a solid image (that is the property's definition); compositing itself is judged by C01/C03");
     vf_assume("src and dst of a blt are distinct buffers; overlapping blits are not specified and not explored");
@@ -558,11 +562,26 @@ int main(int argc, char **argv)
             vf_space_run(nm, (uint64_t)bc.nboxsets * NCLIPS * 2 * NDEST * NOPS, boxes_case, &bc);
         }
         if (th || cfg == 0 || cfg == 4) {
+            /* every chain (quick: default and general): 1024 values per swept channel, {SRC, OVER, OVER_REVERSE, ADD}, all destination formats */
             static sweep_ctx sc; memset(&sc, 0, sizeof sc); sc.cfg = cfg;
             for (int f = 0; f < 5; f++) c10_make_palette(&sc.pal[f], c10_formats[38 + f].code, 0);
-            sc.nvals = (th && (cfg == 0 || cfg == 4)) ? 65536 : 1024; sc.vals = sc.nvals == 65536 ? sweep_full : sweep_quick;
+            sc.nvals = 1024; sc.vals = sweep_quick;
+            sc.nops = 4; sc.ops[0] = 0x01; sc.ops[1] = 0x03; sc.ops[2] = 0x04; sc.ops[3] = 0x0c;
+            sc.nfmt = NDEST; for (int f = 0; f < NDEST; f++) sc.fmt[f] = f;
             snprintf(nm, sizeof nm, "fill-boxes-colour-sweep-%s", c10_cfg_names[cfg]);
-            vf_space_run(nm, (uint64_t)(sc.nvals / 256) * NSWEEPKINDS * 4 * NDEST, sweep_case, &sc);
+            vf_space_run(nm, (uint64_t)(sc.nvals / 256) * NSWEEPKINDS * sc.nops * sc.nfmt, sweep_case, &sc);
+        }
+        if (th && cfg == 0) {
+            /* all 65536 values of every swept channel for the operators that can take the direct-fill shortcut, on the formats color_to_pixel
+             * accepts plus four controls */
+            static sweep_ctx sc; memset(&sc, 0, sizeof sc); sc.cfg = cfg;
+            for (int f = 0; f < 5; f++) c10_make_palette(&sc.pal[f], c10_formats[38 + f].code, 0);
+            sc.nvals = 65536; sc.vals = sweep_full;
+            sc.nops = 2; sc.ops[0] = 0x01; sc.ops[1] = 0x03;
+            static const int F16[16] = { 0, 1, 2, 3, 4, 5, 6, 7, 11, 12, 21, 32, 8, 22, 33, 37 };
+            sc.nfmt = 16; for (int f = 0; f < 16; f++) sc.fmt[f] = F16[f];
+            snprintf(nm, sizeof nm, "fill-boxes-colour-sweep-full-%s", c10_cfg_names[cfg]);
+            vf_space_run(nm, (uint64_t)(sc.nvals / 256) * NSWEEPKINDS * sc.nops * sc.nfmt, sweep_case, &sc);
         }
     }
     {
